@@ -17,6 +17,7 @@ import (
 	"go.nanomsg.org/mangos/v3/protocol/sub"
 	"go.nanomsg.org/mangos/v3/protocol/surveyor"
 	_ "go.nanomsg.org/mangos/v3/transport/inproc"
+	"go.nanomsg.org/mangos/v3/vh/c06"
 	"go.nanomsg.org/mangos/v3/vh/c08"
 	"go.nanomsg.org/mangos/v3/vh/c19"
 	"go.nanomsg.org/mangos/v3/vh/kinds"
@@ -48,6 +49,7 @@ func init() {
 			{Name: "request-released-before-the-reply", Mode: "enum", Reset: kit.ResetGlobals, Body: replyAfterRelease, NeedCounters: []string{"reply-routed-after-release"}},
 			{Name: "send-app-cloned-message", Mode: "enum", Reset: kit.ResetGlobals, Body: sendCloned, NeedCounters: []string{"cloned-send-ok"}},
 			{Name: "newmessage-shape", Mode: "enum", Reset: kit.ResetGlobals, Body: newShape},
+			{Name: "one-publication-several-sub-contexts-message-api", Mode: "enum", Reset: kit.ResetGlobals, Body: func() { ledger.Install(); c06.SharedPublication() }, NeedCounters: []string{"three-or-more-receivers-each-exact"}},
 			{Name: "fanout-pubsub-inproc", Mode: "sched", Bound: b, Cfg: pool, Reset: kit.ResetGlobals, Body: fanoutPubSub},
 			{Name: "fanout-bus-inproc", Mode: "sched", Bound: b, Cfg: pool, Reset: kit.ResetGlobals, Body: func() { fanoutMesh(bus.NewSocket) }},
 			{Name: "fanout-star-inproc", Mode: "sched", Bound: b, Cfg: pool, Reset: kit.ResetGlobals, Body: func() { fanoutMesh(star.NewSocket) }},
